@@ -436,6 +436,16 @@ func c13ParallelLoads(rng *rand.Rand, thorough bool) {
 		org := origin.New()
 		alg := []string{"ecdsa", "rsa"}[(i/2)%2]
 		ca := pki.NewCA(pki.CAOpts{Name: "Parallel CA", Serial: 711, Alg: alg, RSAIndex: 0})
+		// the handshakes that overlap come from two CAs, and the configuration names a few trusted signer certificates of CAs that
+		// sign none of these lists (0, 3, 1 or 5 of them): whatever the checker prepares once per configuration is shared by all
+		ca2 := pki.NewCA(pki.CAOpts{Name: "Parallel CA two", Serial: 712})
+		tdir, _ := os.MkdirTemp("", "verif.c13trusted.")
+		var trusted []string
+		for t := 0; t < []int{0, 3, 1, 5}[i%4]; t++ {
+			f := filepath.Join(tdir, fmt.Sprintf("trusted-%d.pem", t))
+			os.WriteFile(f, pki.PEMCert(pki.NewCA(pki.CAOpts{Name: fmt.Sprintf("Bystander CA %d", t), Serial: int64(730 + t)}).Cert), 0o644)
+			trusted = append(trusted, f)
+		}
 		var chains [][][]*x509.Certificate
 		var want []string
 		// the downloads are released together
@@ -445,8 +455,12 @@ func c13ParallelLoads(rng *rand.Rand, thorough bool) {
 		for j := 0; j < k; j++ {
 			serial := big.NewInt(int64(7100 + j))
 			path := fmt.Sprintf("/par/%d.crl", j)
-			leaf := ca.Leaf(pki.LeafOpts{CN: fmt.Sprintf("par %d", j), Serial: serial, CDP: []string{org.URL + path}})
-			chains = append(chains, pki.Chain(leaf.Cert, ca))
+			issuer := ca
+			if j >= k/2 {
+				issuer = ca2
+			}
+			leaf := issuer.Leaf(pki.LeafOpts{CN: fmt.Sprintf("par %d", j), Serial: serial, CDP: []string{org.URL + path}})
+			chains = append(chains, pki.Chain(leaf.Cert, issuer))
 			var listed []*big.Int
 			var avoid []*big.Int
 			if j%2 == 0 {
@@ -456,7 +470,7 @@ func c13ParallelLoads(rng *rand.Rand, thorough bool) {
 				avoid = []*big.Int{serial}
 				want = append(want, "accept")
 			}
-			body := BuildCRL(CRLSpec{Signer: ca, Listed: listed, Avoid: avoid, Number: int64(j + 1)}, Shape{Size: "s300", Pos: "middle", Width: "w8", Ext: "reason", Enc: []string{"der", "pem"}[j%2]})
+			body := BuildCRL(CRLSpec{Signer: issuer, Listed: listed, Avoid: avoid, Number: int64(j + 1)}, Shape{Size: "s300", Pos: "middle", Width: "w8", Ext: "reason", Enc: []string{"der", "pem"}[j%2]})
 			org.Set(path, origin.Behaviour{Kind: "func", Func: func([]byte) (int, []byte) {
 				mu.Lock()
 				arrived++
@@ -471,7 +485,7 @@ func c13ParallelLoads(rng *rand.Rand, thorough bool) {
 				return 200, body
 			}})
 		}
-		w, err := world.New(world.Cfg{Mode: "crl_only", Storage: backendName(disk), Sig: "verify", Fetch: "fetch_actively", CdpStrict: true, Interval: "1h"})
+		w, err := world.New(world.Cfg{Mode: "crl_only", Storage: backendName(disk), Sig: "verify", Fetch: "fetch_actively", CdpStrict: true, Interval: "1h", Trusted: trusted})
 		if err != nil {
 			fmt.Println("WORKER-ERROR", err)
 			return
@@ -480,6 +494,7 @@ func c13ParallelLoads(rng *rand.Rand, thorough bool) {
 			fmt.Println("WORKER-ERROR", err)
 			return
 		}
+		defer os.RemoveAll(tdir)
 		got := make([]world.Result, k)
 		var wg sync.WaitGroup
 		for j := 0; j < k; j++ {
